@@ -119,6 +119,30 @@ func (e *SpecEnv) tr(x SExpr, old bool) Term {
 		e.tx.nq++
 		name := fmt.Sprintf("%s_q%d", n.Var, e.tx.nq)
 		c.vars[n.Var] = Term{S: name, Sort: "Int"}
+		// Absolute-position form: when the bound variable is used (additively) as a slice index S[v + rest], quantify
+		// over the absolute position p = off(S) + v + rest instead, so that the heap read is (select (select H obj) p)
+		// - a trigger that matches the ground reads produced by copy/append/store, whatever the slice offsets are.
+		if base, rest, ok := absIndexCandidate(n.Body, n.Var); ok {
+			func() {
+				defer func() {
+					if r := recover(); r != nil {
+						if _, isSpec := r.(specErr); !isSpec {
+							panic(r)
+						}
+					}
+				}()
+				bs := e.tr(base, false)
+				if bs.Sort != "Slice" {
+					return
+				}
+				vt := "(- " + name + " (s-off " + bs.S + "))"
+				if rest != nil {
+					rt := e.tr(rest, old)
+					vt = "(- " + vt + " " + rt.S + ")"
+				}
+				c.vars[n.Var] = Term{S: vt, Sort: "Int"}
+			}()
+		}
 		body := c.tr(n.Body, old)
 		if body.Sort != "Bool" {
 			e.fail("quantifier body must be Bool")
@@ -127,7 +151,8 @@ func (e *SpecEnv) tr(x SExpr, old bool) Term {
 		if n.Lo != nil {
 			lo := e.tr(n.Lo, old)
 			hi := e.tr(n.Hi, old)
-			rng = sand("(<= "+lo.S+" "+name+")", "(< "+name+" "+hi.S+")")
+			vterm := c.vars[n.Var].S
+			rng = sand("(<= "+lo.S+" "+vterm+")", "(< "+vterm+" "+hi.S+")")
 		}
 		if n.Kind == "forall" {
 			return Term{S: "(forall ((" + name + " Int)) " + simp(rng, body.S) + ")", Sort: "Bool"}
@@ -719,4 +744,118 @@ func (e *SpecEnv) timeMethod(t Term, name string, args []Term) Term {
 	}
 	e.fail("unsupported time method %s", name)
 	return Term{}
+}
+
+// mentions reports whether expression x mentions identifier v (not rebound).
+func mentions(x SExpr, v string) bool {
+	ids := map[string]bool{}
+	identsIn(x, ids)
+	return ids[v]
+}
+
+// additiveSplit: if idx == v + rest (v occurring exactly once, positively, at an additive position), returns rest (nil if none).
+func additiveSplit(idx SExpr, v string) (SExpr, bool) {
+	var terms []SExpr
+	var signs []bool
+	var flat func(x SExpr, pos bool)
+	flat = func(x SExpr, pos bool) {
+		if b, ok := x.(*SBinary); ok && (b.Op == "+" || b.Op == "-") {
+			flat(b.X, pos)
+			if b.Op == "+" {
+				flat(b.Y, pos)
+			} else {
+				flat(b.Y, !pos)
+			}
+			return
+		}
+		terms = append(terms, x)
+		signs = append(signs, pos)
+	}
+	flat(idx, true)
+	found := -1
+	for i, t := range terms {
+		if id, ok := t.(*SIdent); ok && id.Name == v {
+			if found >= 0 || !signs[i] {
+				return nil, false
+			}
+			found = i
+		} else if mentions(t, v) {
+			return nil, false
+		}
+	}
+	if found < 0 {
+		return nil, false
+	}
+	var rest SExpr
+	for i, t := range terms {
+		if i == found {
+			continue
+		}
+		if rest == nil {
+			if signs[i] {
+				rest = t
+			} else {
+				rest = &SUnary{"-", t}
+			}
+		} else if signs[i] {
+			rest = &SBinary{"+", rest, t}
+		} else {
+			rest = &SBinary{"-", rest, t}
+		}
+	}
+	return rest, true
+}
+
+// absIndexCandidate finds the first slice read S[v + rest] in body whose base S does not mention v.
+func absIndexCandidate(body SExpr, v string) (base SExpr, rest SExpr, ok bool) {
+	var walk func(x SExpr) bool
+	walk = func(x SExpr) bool {
+		switch n := x.(type) {
+		case *SIndex:
+			if !mentions(n.X, v) {
+				if r, good := additiveSplit(n.I, v); good {
+					base, rest, ok = n.X, r, true
+					return true
+				}
+			}
+			return walk(n.X) || walk(n.I)
+		case *SUnary:
+			return walk(n.X)
+		case *SBinary:
+			return walk(n.X) || walk(n.Y)
+		case *SCond:
+			return walk(n.C) || walk(n.A) || walk(n.B)
+		case *SCall:
+			for _, a := range n.Args {
+				if walk(a) {
+					return true
+				}
+			}
+		case *SMethod:
+			if walk(n.Recv) {
+				return true
+			}
+			for _, a := range n.Args {
+				if walk(a) {
+					return true
+				}
+			}
+		case *SSlice:
+			return walk(n.X)
+		case *SField:
+			return walk(n.X)
+		case *SOld:
+			return walk(n.X)
+		case *SQuant:
+			if n.Var == v {
+				return false
+			}
+			return walk(n.Body)
+		case *SLet:
+			return walk(n.Val) || walk(n.Body)
+		}
+		return false
+	}
+	walk(body)
+	return
 }
